@@ -114,12 +114,23 @@ inductive Err
   | noExportedFields       -- errNoExportedFields
 deriving Repr, DecidableEq, Inhabited
 
-/-- `jsonwire.NeedEscape(name)`: an ASCII byte with `escapeASCII[c] > 0` (control, `"`, `&`, `<`, `>`, `\\`),
-or a rune that decodes to U+FFFD (ill-formed UTF-8 included), U+2028 or U+2029.
+/-- `jsonwire.NeedEscape(name)`, the loop with fuel = number of bytes (each iteration consumes at least one):
+an ASCII byte with `escapeASCII[c] > 0` (control, `"`, `&`, `<`, `>`, `\\`), or a rune that decodes to U+FFFD
+(ill-formed UTF-8 included), U+2028 or U+2029.
 It only feeds the "other options than `embed`" ERROR test, never the resolution. -/
-def needEscape (b : Bytes) : Bool :=
-  (Fold.runes b).any (fun r => r < 0x20 || r == 0x22 || r == 0x26 || r == 0x3C || r == 0x3E || r == 0x5C ||
-    r == 0xFFFD || r == 0x2028 || r == 0x2029)
+def needEscapeAux : Nat → Bytes → Bool
+  | 0, _ => false
+  | _ + 1, [] => false
+  | fuel + 1, c :: rest =>
+    if c.toNat < Utf8.runeSelf then
+      if c.toNat < 0x20 || c.toNat == 0x22 || c.toNat == 0x26 || c.toNat == 0x3C || c.toNat == 0x3E || c.toNat == 0x5C then true
+      else needEscapeAux fuel rest
+    else
+      let rn := Utf8.decodeRune (c :: rest)
+      if rn.1 == 0xFFFD || rn.1 == 0x2028 || rn.1 == 0x2029 then true
+      else needEscapeAux fuel (rest.drop (rn.2 - 1))
+
+def needEscape (b : Bytes) : Bool := needEscapeAux b.length b
 
 /-- Observable result of `parseFieldOptions(sf)`: (options, ignored, error). -/
 def parseOpts (d : FieldDecl) : FieldOpts × Bool × Option Err :=
